@@ -108,7 +108,9 @@ func (p *parser) advance() bool {
 			// ignore
 
 		} else if char == '#' {
-			p.next()
+			if p.next() != ' ' {
+				p.backup()
+			}
 			start := p.position
 			for {
 				c := p.next()
@@ -121,7 +123,9 @@ func (p *parser) advance() bool {
 				p.lastComment.WriteByte('\n')
 			}
 			p.lastComment.WriteString(p.input[start:p.position])
-			p.next()
+			if p.next() != '\n' {
+				p.backup()
+			}
 
 		} else {
 			p.backup()
